@@ -55,6 +55,11 @@ def gen_config(rng):
     extra = {}
     if rng.random() < 0.3:
         extra["initial_blocks"] = [list(r) for r in target]
+        if rng.random() < 0.7:
+            # rooms as a person would write them down: cells in arbitrary order, rooms in arbitrary order
+            for r in extra["initial_blocks"]:
+                rng.shuffle(r)
+            rng.shuffle(extra["initial_blocks"])
     if rng.random() < 0.2:
         extra["allow_unmet_constraints_first"] = True
     return cfg, extra, tight
